@@ -953,7 +953,7 @@ class CodeGenerator(NodeVisitor):
     def visit_Block(self, node: nodes.Block, frame: Frame) -> None:
         """Call a block and register it for the template."""
         level = 0
-        if frame.toplevel:
+        if frame.require_output_check:
             # if we know that we are a child template, there is no need to
             # check if we are one
             if self.has_known_extends:
